@@ -77,6 +77,21 @@ def prescan(pdict, counters=None, conds=None, leaves=None):
     return counters, conds, leaves
 
 
+def decode_value(typ, width, res, raw):
+    """Value a field's bits encode, decoded independently of the code under test."""
+    if typ == "INT":
+        val = B.twos(raw, width)
+    elif typ == "SNT":
+        val = B.signmag(raw, width)
+    elif typ in ("CHA", "STR"):
+        val = chr(raw)
+    else:
+        val = raw
+    if typ not in ("CHA", "STR") and res not in (0, 1):
+        val = val * res
+    return val
+
+
 VSTRATS = ("zero", "ones", "signbit", "maxmag", "random", "mixed", "alt")
 CSTRATS = ("zero", "one", "max", "random", "small")
 MSTRATS = ("empty", "single", "dense", "random", "nosig", "nocell", "fullcell")
@@ -267,17 +282,7 @@ class Builder:
         start, end = self.w.put(raw, width)
         if self.w.n > MAXBITS:
             raise TooLong()
-        # ---- decode independently
-        if typ == "INT":
-            val = B.twos(raw, width)
-        elif typ == "SNT":
-            val = B.signmag(raw, width)
-        elif typ in ("CHA", "STR"):
-            val = chr(raw)
-        else:
-            val = raw
-        if typ not in ("CHA", "STR") and res not in (0, 1):
-            val = val * res
+        val = decode_value(typ, width, res, raw)
         self.fields.append(dict(key=key, name=name, start=start, width=width, typ=typ, raw=raw,
                                 role=role if typ != "STR" else "str", index=tuple(index), res=res))
         if typ == "STR":
